@@ -1,12 +1,16 @@
 package c12
 
 import (
+	"fmt"
 	"sync"
 	"testing"
 	"time"
 
+	"github.com/cnotch/ipchub/av/format/rtp"
+	"github.com/cnotch/ipchub/media"
 	"github.com/gorilla/websocket"
 	"verif/harness/lib/evid"
+	"verif/harness/lib/rtppack"
 	"verif/harness/lib/rtspc"
 	"verif/harness/lib/srv"
 )
@@ -124,4 +128,100 @@ func TestWSPJoinRightAfterInit(t *testing.T) {
 		t.Logf("observation: %d of %d JOINs sent right after INIT were answered 404", miss, n)
 	}
 	srv.WaitFor(releaseBound, func() bool { return srv.WspConns() == 0 })
+}
+
+// A TCP player that has stopped reading: small SO_RCVBUF, the client's reader
+// held, the publisher floods until the delivery goroutine is blocked in its
+// write to the full socket (state-based: between two flood batches nothing was
+// handed to the consumer and its backlog is not empty). Then the session ends in
+// one of the ways the statement names — the client half-closes (FIN, socket kept
+// open), sends TEARDOWN without reading and closes, closes, or resets — and
+// whatever the session held must be released: consumer count and RTSP
+// connection counter back at their prior values within a generous bound.
+func TestStalledPlayerIsReleased(t *testing.T) {
+	w := getWorld(t)
+	if err := w.heal(); err != nil {
+		t.Fatalf("machinery: %v", err)
+	}
+	evid.Rule("stalled players: TCP player with SO_RCVBUF 4 KiB that stops reading, flood until the server's delivery goroutine is blocked in write, then half-close / TEARDOWN+close / close / reset; oracle: consumers and RtspConns back to baseline (bounded polling). Non-trivial = the writer was observed blocked")
+	payload := make([]byte, 1400)
+	payload[0] = 0x41
+	seq := uint16(0)
+	flood := func(n int) {
+		for i := 0; i < n; i++ {
+			seq++
+			pk := rtppack.Sequence([][]byte{payload}, true, 96, uint32(seq)*3000, seq, 0xF100D)[0].Marshal()
+			w.live.WriteRtpPacket(rtppack.ToIpchub(rtp.ChannelVideo, pk))
+		}
+	}
+	rounds := 1
+	if evid.Thorough() {
+		rounds = 4
+	}
+	for r := 0; r < rounds; r++ {
+		for _, end := range []string{"halfclose", "teardown-then-close", "close", "reset"} {
+			srv.WaitFor(releaseBound, func() bool { return srv.Consumers(pathLive) == 0 })
+			conns0 := srv.RtspConns()
+			var mu sync.Mutex
+			var cid media.CID
+			have := false
+			media.VerifSetSched(func(point string, obj interface{}) {
+				if point == "join.registered" && media.VerifConsumptionStream(obj) == w.live {
+					if id, ok := media.VerifConsumptionCID(obj); ok {
+						mu.Lock()
+						cid, have = id, true
+						mu.Unlock()
+					}
+				}
+			})
+			c, err := retry("tcp dial", func() (*rtspc.Client, error) { return rtspc.DialRcvBuf(w.s.Addr(), ioBound, 4096) })
+			if err != nil {
+				media.VerifSetSched(nil)
+				t.Fatalf("machinery: %v", err)
+			}
+			_, err = c.Play(w.s.RTSP(pathLive))
+			media.VerifSetSched(nil)
+			if err != nil {
+				c.Close()
+				evid.Violation(t, "stalled-play", end, "legal play dialogue refused: %v", err)
+			}
+			mu.Lock()
+			id, ok := cid, have
+			mu.Unlock()
+			c.StopReading()
+			blocked := false
+			if ok {
+				_, lastOut, _ := media.VerifFlow(w.live, id)
+				for batch := 0; batch < 60 && !blocked; batch++ {
+					flood(1000)
+					_, out, found := media.VerifFlow(w.live, id)
+					blocked = found && out == lastOut && media.VerifQueueLen(w.live, id) > 0
+					lastOut = out
+				}
+			}
+			switch end {
+			case "halfclose":
+				c.CloseWrite() // FIN; the socket stays open and unread
+			case "teardown-then-close":
+				c.Send(c.Build("TEARDOWN", w.s.RTSP(pathLive), nil, nil))
+				c.Close()
+			case "close":
+				c.Close()
+			case "reset":
+				c.Abort()
+			}
+			released := srv.WaitFor(releaseBound, func() bool { return srv.Consumers(pathLive) == 0 && srv.RtspConns() == conns0 })
+			evid.Eval(1)
+			evid.Class(fmt.Sprintf("stalled player ended by %s (writer blocked: %v)", end, blocked))
+			if blocked {
+				evid.Nontrivial(evid.FP("stalled", end, r))
+			}
+			if !released {
+				n, k := srv.Consumers(pathLive), srv.RtspConns()
+				c.Close()
+				evid.Violation(t, "stalled-release", end, "a TCP player that had stopped reading (writer blocked: %v) ended by %s: %d consumers left on %s, RtspConns %d (before the session %d) after %v", blocked, end, n, pathLive, k, conns0, releaseBound)
+			}
+			c.Close()
+		}
+	}
 }
